@@ -144,7 +144,9 @@ Example C16_example : exists s, run2 (init2 cfg_full_warn) ex_hostile = Some s /
   failed s = 5%nat /\ warned s = 1%nat /\ dropped s = 6%nat /\ gen s = 2%nat /\ plain_out s = 0%nat /\
   map (fun w => (w_id w, w_kind w)) (wire (base s)) = [(48, WReq 0 1 false); (44, WAck 25); (40, WAck 9)].
 Proof. eexists. split; [vm_compute; reflexivity|repeat split; reflexivity]. Qed.
+Print Assumptions C16_example.
 
 Example C16_example_fresh : exists s, run2 (init2 cfg_fresh) ex_fresh = Some s /\
   gen s = 2%nat /\ plain_out s = 3%nat /\ keyex s = 1%nat.
 Proof. eexists. split; [vm_compute; reflexivity|repeat split; reflexivity]. Qed.
+Print Assumptions C16_example_fresh.
